@@ -173,6 +173,17 @@ func runC19(c *Check) {
 						okOpen, w := mustPass(x, boolEdge(func(v ssa.Value) bool { return anyFieldLoad(v) == openf }, true))
 						c.Decide(okWho && okLock && okOpen, "R2", k+"#send-on-"+g.typ, x.Pos(), "who-may-send+lockset+edge-cutset", w,
 							"send only in Add, under the channel lock, behind open==true", "a send on "+g.typ+".Channel outside Add / without the lock / without the open test can hit a closed channel and panic during shutdown")
+					case *ssa.Select:
+						for _, sst := range x.States {
+							if sst.Dir != types.SendOnly || loadOfField(sst.Chan, chf) == nil {
+								continue
+							}
+							n2++
+							k := c.P.Key(fn)
+							okOpen, w := mustPass(x, boolEdge(func(v ssa.Value) bool { return anyFieldLoad(v) == openf }, true))
+							c.Decide(k == addKey && le.HeldBefore(x)[lockf] && okOpen, "R2", k+"#send-on-"+g.typ, x.Pos(), "who-may-send+lockset+edge-cutset", w,
+								"send only in Add, under the channel lock, behind open==true", "a send on "+g.typ+".Channel outside Add / without the lock / without the open test can hit a closed channel and panic during shutdown")
+						}
 					case *ssa.Call:
 						if bi, ok := x.Call.Value.(*ssa.Builtin); ok && bi.Name() == "close" && loadOfField(x.Call.Args[0], chf) != nil {
 							n2++
